@@ -283,6 +283,18 @@ def _param_mutations(fm: FuncModel) -> list[str]:
     return out
 
 
+def _polar(e):
+    """(core, negated): `not`, `not in` and `is not` peeled off"""
+    neg = False
+    while True:
+        if isinstance(e, ast.UnaryOp) and isinstance(e.op, ast.Not):
+            e, neg = e.operand, not neg
+        elif isinstance(e, ast.Compare) and len(e.ops) == 1 and isinstance(e.ops[0], (ast.NotIn, ast.IsNot)):
+            e, neg = ast.Compare(e.left, [ast.In() if isinstance(e.ops[0], ast.NotIn) else ast.Is()], e.comparators), not neg
+        else:
+            return e, neg
+
+
 def d6(ck: Check) -> None:
     fm = ck.prog.fm(CTRL, "successions_to_target")
     f = fm.f
@@ -372,18 +384,15 @@ def d6(ck: Check) -> None:
                 if sd_ and isinstance(sd_[1], ast.ListComp) and len(sd_[1].generators) == 1 and len(sd_[1].generators[0].ifs) == 1 \
                         and isinstance(sd_[1].generators[0].target, ast.Name) and text(sd_[1].elt) == sd_[1].generators[0].target.id \
                         and text(sd_[1].generators[0].iter).endswith(".node_ids()"):
-                    c_ = sd_[1].generators[0].ifs[0]
-                    neg_ = False
-                    while isinstance(c_, ast.UnaryOp) and isinstance(c_.op, ast.Not):
-                        c_, neg_ = c_.operand, not neg_
+                    c_, neg_ = _polar(sd_[1].generators[0].ifs[0])
                     tv_ = sd_[1].generators[0].target.id
                     for n_ in own_walk(f.node):
                         if isinstance(n_, ast.Continue) and isinstance(f.parents.get(n_), ast.If) and n_ in f.parents[n_].body:
                             lps_ = fm.cfg.enclosing_loops(fm.cfgn(n_))
                             if lps_ and isinstance(lps_[0], ast.For) and isinstance(lps_[0].target, ast.Name) \
                                     and text(lps_[0].iter) == text(sd_[1].generators[0].iter):
-                                t_ = f.parents[n_].test
-                                if neg_ and text(logic._rename(c_, tv_, lps_[0].target.id)) == text(t_):
+                                t_, tneg_ = _polar(f.parents[n_].test)
+                                if neg_ != tneg_ and text(logic._rename(c_, tv_, lps_[0].target.id)) == text(t_):
                                     listed = a_
         if listed is not None:
             want = logic.And(("atom", listed) if listed[0] == "b" else logic.Lt("0", listed[2]), logic.Not(logic.Lt("0", "len(successions)")))
